@@ -240,7 +240,7 @@ def evaluate(case):
         except RuntimeError:
             return Eval([], outcome='rejected', nontrivial=False)
         except Exception:
-            return Eval([Violation('negative.exception', case, {'line': line, 'traceback': traceback.format_exc()[-800:]})])
+            return Eval([sut.exc_violation(case, 'negative.exception', {'line': line})])
         return Eval([Violation('negative.accepted', case, {'line': line, 'decoded_as': str(msg)})], outcome='accepted')
     m, d = case['m'], case['d']
     line = wlprint.render(m, d)
@@ -249,7 +249,7 @@ def evaluate(case):
     except RuntimeError as e:
         return Eval([Violation('decode.rejected', case, {'line': line, 'error': str(e)[:200]})], outcome='rejected')
     except Exception:
-        return Eval([Violation('decode.exception', case, {'line': line, 'traceback': traceback.format_exc()[-800:]})])
+        return Eval([sut.exc_violation(case, 'decode.exception', {'line': line})])
     bad = compare(m, d, conn_id, msg, line)
     kinds = sorted({a[0] for a in m['args']})
     outcome = [msg.sent, len(msg.args), [_kind(a) for a in msg.args]]
